@@ -60,7 +60,7 @@ PRE_STEPS = ["none", "peripheral", "absorption", "covariate", "proportional", "c
 
 
 def budget(tier):
-    return int(os.environ.get("VERIF_BUDGET", 0)) or {"quick": 340, "thorough": 6000}[tier]
+    return int(os.environ.get("VERIF_BUDGET", 0)) or {"quick": 340, "thorough": 2000}[tier]
 
 
 # ---------------------------------------------------------------- generation
